@@ -81,6 +81,14 @@ static void mode_dec(void){
       int kind; if(burst>0){ kind=1; burst--; } else { kind=vc_chance(&r,1,10)?1: vc_chance(&r,1,14)?2: vc_chance(&r,1,12)?3:0; if(kind==1&&vc_chance(&r,1,2)) burst=vc_range(&r,1,9); }
       const unsigned char *p=st->pkt[k]; int len=st->len[k]; int fec=0; unsigned char *tmp=NULL; int fsz=opus_packet_get_nb_samples(p,len,Fs); if(fsz<=0||fsz>cap) continue;
       if(kind==1){ p=NULL; len=0; } else if(kind==2) fec=1; else if(kind==3){ memcpy(hb,p,len); len=vk_mutate(&r,hb,len,4000); tmp=vc_exact_copy(hb,len); p=tmp; fsz=cap; }
+      /* "regardless of earlier unrelated calls": calls that are refused (buffer too small for another stream's packet, corrupt packet, bad arguments, bad ctl values) are made on
+         one twin only and must leave no trace; if such a call happens to succeed it is mirrored on the other twin */
+      if(vc_chance(&r,1,6)){ static float junk[5760*2]; int what=(int)vc_below(&r,4); int rc=-1; vk_stream *o=&vk_pool[vc_below(&r,vk_pool_n)]; int ok=vc_below(&r,o->n); const unsigned char *q=o->pkt[ok]; int ql=o->len[ok];
+        if(what==0){ int qs=opus_packet_get_nb_samples(q,ql,Fs); int small=Fs/400*(1+(int)vc_below(&r,3)); if(qs>small){ rc=opus_decode_float(X,q,ql,junk,small,0); if(rc>=0) opus_decode_float(B,q,ql,junk,small,0); } }
+        else if(what==1){ static unsigned char bad[8]={0x03,0xFF,0xFE,0xFD,0x00,0x01,0x02,0x03}; rc=opus_decode_float(X,bad,2,junk,cap,0); if(rc>=0) opus_decode_float(B,bad,2,junk,cap,0); }
+        else if(what==2){ rc=opus_decode_float(X,q,-1,junk,cap,0); if(rc>=0) opus_decode_float(B,q,-1,junk,cap,0); rc=opus_decode_float(X,q,ql,junk,cap+1,1); (void)rc; rc=-1; }
+        else { rc=opus_decoder_ctl(X,OPUS_SET_GAIN(40000)); opus_int32 v; opus_decoder_ctl(X,OPUS_GET_BANDWIDTH(&v)); opus_decoder_ctl(X,OPUS_GET_LAST_PACKET_DURATION(&v)); opus_decoder_ctl(X,OPUS_GET_PITCH(&v)); }
+        vc_count(rc<0?"dec_refused_unrelated_calls":"dec_unrelated_calls_that_succeeded",1); }
       int api=vc_below(&r,2); int ra,rb; memset(oa,0,sizeof(float)*8); memset(ob,0,sizeof(float)*8);
       if(api){ ra=opus_decode(X,p,len,sa,fsz,fec); churn(&r); paint_stack(ppat); rb=opus_decode(B,p,len,sb,fsz,fec); } else { ra=opus_decode_float(X,p,len,oa,fsz,fec); churn(&r); paint_stack(ppat); rb=opus_decode_float(B,p,len,ob,fsz,fec); }
       ppat=(ppat*5+1)&0xFF; vc_count(stage==2?"dec_reset_pairs":"dec_pairs",1); total++;
@@ -110,17 +118,24 @@ static void mode_ms(void){
   /* the decoder twins get one more output channel than the encoder, mapped to 255 (muted), in half of the cases: what they write there must not depend on what the buffer held */
   int dch=ch; if(fam!=3&&ch<255&&vc_chance(&r,1,2)){ map[ch]=255; dch=ch+1; }
   OpusMSDecoder *DA=NULL,*DB=NULL; if(fam!=3){ int dsz=opus_multistream_decoder_get_size(streams,coupled); DA=(OpusMSDecoder*)poisoned(dsz,0,&r); DB=(OpusMSDecoder*)poisoned(dsz,-1,&r); if(opus_multistream_decoder_init(DA,Fs,dch,streams,coupled,map)||opus_multistream_decoder_init(DB,Fs,dch,streams,coupled,map)){ vc_viol("ms:init","ms decoder init failed"); return; } }
+  /* projection decoder twins (zero vs poisoned memory; cloned with memcpy and reset along the way like the encoders) */
+  OpusProjectionDecoder *PA=NULL,*PB=NULL; int psz=0; unsigned char *dmx=NULL; opus_int32 dmxsz=0;
+  if(fam==3){ opus_projection_encoder_ctl((OpusProjectionEncoder*)EA,OPUS_PROJECTION_GET_DEMIXING_MATRIX_SIZE(&dmxsz)); dmx=(unsigned char*)malloc(dmxsz); opus_projection_encoder_ctl((OpusProjectionEncoder*)EA,OPUS_PROJECTION_GET_DEMIXING_MATRIX(dmx,dmxsz));
+    psz=opus_projection_decoder_get_size(ch,streams,coupled); if(psz<=0){ vc_viol("ms:size","projection decoder size %d",psz); return; } PA=(OpusProjectionDecoder*)poisoned(psz,0,&r); PB=(OpusProjectionDecoder*)poisoned(psz,-1,&r);
+    if(opus_projection_decoder_init(PA,Fs,ch,streams,coupled,dmx,dmxsz)||opus_projection_decoder_init(PB,Fs,ch,streams,coupled,dmx,dmxsz)){ vc_viol("ms:init","projection decoder init failed"); return; } }
   vc_siggen g; vs_init(&g,vc_below(&r,VS_NFINITE),Fs,ch,0.5f,vc_next(&r)); float *in=(float*)malloc(sizeof(float)*5760*ch), *oa=(float*)malloc(sizeof(float)*5760*(ch+1)), *ob=(float*)malloc(sizeof(float)*5760*(ch+1)); static unsigned char pa[8000], pb[8000];
   int n=vc_range(&r,6,24), kc=vc_below(&r,n-2), kr=kc+1+(int)vc_below(&r,n-kc-1); int fidx=vc_range(&r,0,6); int stage=0; void *X=EA; int br=OPUS_AUTO,vbr=1,cx=9; int nset=0; struct { int br,vbr,cx; } sets[40];
   for(int k=0;k<n;k++){
     if(vc_chance(&r,1,3)&&nset<40){ br=vc_chance(&r,1,6)?OPUS_AUTO:vc_range(&r,4000,64000)*ch; vbr=vc_below(&r,2); cx=vc_below(&r,11); sets[nset].br=br; sets[nset].vbr=vbr; sets[nset].cx=cx; nset++;
       void *es[2]={X,EB}; for(int i=0;i<2;i++){ if(fam==3){ opus_projection_encoder_ctl((OpusProjectionEncoder*)es[i],OPUS_SET_BITRATE(br)); opus_projection_encoder_ctl((OpusProjectionEncoder*)es[i],OPUS_SET_VBR(vbr)); opus_projection_encoder_ctl((OpusProjectionEncoder*)es[i],OPUS_SET_COMPLEXITY(cx)); } else { opus_multistream_encoder_ctl((OpusMSEncoder*)es[i],OPUS_SET_BITRATE(br)); opus_multistream_encoder_ctl((OpusMSEncoder*)es[i],OPUS_SET_VBR(vbr)); opus_multistream_encoder_ctl((OpusMSEncoder*)es[i],OPUS_SET_COMPLEXITY(cx)); } } }
     if(k==kc){ void *C=poisoned(esz,0x5A,&r); memcpy(C,X,esz); memset(X,0xDD,esz); free(X); X=C; stage=1; }
+    if(k==kc&&PA){ OpusProjectionDecoder *C=(OpusProjectionDecoder*)poisoned(psz,0x5A,&r); memcpy(C,PA,psz); memset(PA,0xDD,psz); free(PA); PA=C; vc_count("projection_decoder_clones",1); }
     if(k==kr){ /* reset the clone; compare from here with a new object that got the same settings */ void *F=poisoned(esz,-1,&r); int s2,c2; unsigned char m2[255];
       if(fam==3) opus_projection_ambisonics_encoder_init((OpusProjectionEncoder*)F,Fs,ch,3,&s2,&c2,app); else opus_multistream_surround_encoder_init((OpusMSEncoder*)F,Fs,ch,fam,&s2,&c2,m2,app);
       for(int i=0;i<nset;i++){ if(fam==3){ opus_projection_encoder_ctl((OpusProjectionEncoder*)F,OPUS_SET_BITRATE(sets[i].br)); opus_projection_encoder_ctl((OpusProjectionEncoder*)F,OPUS_SET_VBR(sets[i].vbr)); opus_projection_encoder_ctl((OpusProjectionEncoder*)F,OPUS_SET_COMPLEXITY(sets[i].cx)); } else { opus_multistream_encoder_ctl((OpusMSEncoder*)F,OPUS_SET_BITRATE(sets[i].br)); opus_multistream_encoder_ctl((OpusMSEncoder*)F,OPUS_SET_VBR(sets[i].vbr)); opus_multistream_encoder_ctl((OpusMSEncoder*)F,OPUS_SET_COMPLEXITY(sets[i].cx)); } }
       if(fam==3) opus_projection_encoder_ctl((OpusProjectionEncoder*)X,OPUS_RESET_STATE); else opus_multistream_encoder_ctl((OpusMSEncoder*)X,OPUS_RESET_STATE);
       if(getenv("C12_DEBUG")){ const unsigned char *a=(const unsigned char*)X,*b=(const unsigned char*)F; int st=-1; fprintf(stderr,"reset at frame %d, object size %d; differing byte ranges (reset object vs new object):",k,esz); for(int q=0;q<=esz;q++){ int df=q<esz&&a[q]!=b[q]; if(df&&st<0) st=q; if(!df&&st>=0){ fprintf(stderr," [%d,%d)",st,q); st=-1; } } fprintf(stderr,"\n"); if(getenv("C12_PATCH")){ int lo=0,hi=-1,idx=0; sscanf(getenv("C12_PATCH"),"%d-%d",&lo,&hi); unsigned char *fb=(unsigned char*)F; st=-1; for(int q=0;q<=esz;q++){ int df=q<esz&&a[q]!=fb[q]; if(df&&st<0) st=q; if(!df&&st>=0){ if(idx>=lo&&idx<=hi) memcpy(fb+st,a+st,q-st); idx++; st=-1; } } } }
+      if(PA){ opus_projection_decoder_ctl(PA,OPUS_RESET_STATE); free(PB); PB=(OpusProjectionDecoder*)poisoned(psz,-1,&r); opus_projection_decoder_init(PB,Fs,ch,streams,coupled,dmx,dmxsz); }
       free(EB); EB=F; stage=2; if(DA){ opus_multistream_decoder_ctl(DA,OPUS_RESET_STATE); int dsz=opus_multistream_decoder_get_size(streams,coupled); free(DB); DB=(OpusMSDecoder*)poisoned(dsz,-1,&r); opus_multistream_decoder_init(DB,Fs,dch,streams,coupled,map); } }
     if(vc_chance(&r,1,5)) fidx=vc_range(&r,0,6); int fs=vk_frame_samples(Fs,fidx); vs_fill(&g,in,fs);
     int la= fam==3?opus_projection_encode_float((OpusProjectionEncoder*)X,in,fs,pa,8000):opus_multistream_encode_float((OpusMSEncoder*)X,in,fs,pa,8000); paint_stack(0x40+k);
@@ -129,9 +144,11 @@ static void mode_ms(void){
     if(la!=lb||la<=0||memcmp(pa,pb,la)){ vc_viol(stage==2?"ms:enc-reset-differs":stage==1?"ms:enc-clone-diverges":"ms:enc-memory-dependent","family %d ch %d frame %d (%s): len %d vs %d (Fs=%d fs=%d)",fam,ch,k,stage==2?"reset vs new":stage==1?"clone vs twin":"zero vs poisoned memory",la,lb,Fs,fs); break; }
     if(DA){ int lost=vc_chance(&r,1,8); memset(oa,0x11,sizeof(float)*fs*dch); memset(ob,0xC7,sizeof(float)*fs*dch);   /* different previous contents in the two output buffers */ int ra=opus_multistream_decode_float(DA,lost?NULL:pa,lost?0:la,oa,fs,0); paint_stack(0x90+k); int rb=opus_multistream_decode_float(DB,lost?NULL:pa,lost?0:la,ob,fs,0); vc_count("ms_dec_pairs",1);
       if(ra!=rb||ra!=fs||memcmp(oa,ob,sizeof(float)*fs*dch)){ vc_viol(stage==2?"ms:dec-reset-differs":"ms:dec-memory-dependent","family %d ch %d (+%d muted) frame %d: multistream decoder twins differ (ret %d/%d)",fam,ch,dch-ch,k,ra,rb); break; } if(dch>ch) vc_count("ms_dec_pairs_with_muted_channel",1); }
+    if(PA){ int lost=vc_chance(&r,1,8); memset(oa,0x11,sizeof(float)*fs*ch); memset(ob,0xC7,sizeof(float)*fs*ch); int ra=opus_projection_decode_float(PA,lost?NULL:pa,lost?0:la,oa,fs,0); paint_stack(0x90+k); int rb=opus_projection_decode_float(PB,lost?NULL:pa,lost?0:la,ob,fs,0); vc_count("projection_dec_pairs",1);
+      if(ra!=rb||ra!=fs||memcmp(oa,ob,sizeof(float)*fs*ch)){ vc_viol(stage==2?"ms:dec-reset-differs":stage==1?"ms:dec-clone-diverges":"ms:dec-memory-dependent","projection decoder, %d channels, frame %d: twins differ (ret %d/%d; %s)",ch,k,ra,rb,stage==2?"reset vs new":stage==1?"memcpy clone vs twin":"zero vs poisoned memory"); break; } }
     vc_sig3((uint64_t)fam|((uint64_t)ch<<8),(uint64_t)stage|((uint64_t)fidx<<2),(uint64_t)(Fs/8000));
   }
-  free(in); free(oa); free(ob); free(X); free(EB); free(DA); free(DB);
+  free(in); free(oa); free(ob); free(X); free(EB); free(DA); free(DB); free(PA); free(PB); free(dmx);
 }
 
 int main(int argc,char **argv){
